@@ -109,6 +109,12 @@ pub mod rrt;
 #[path = "path_plan/rrt_to.rs"]
 mod rrt_to;
 
+/// Verification hooks: re-export of the private joint-name simplifier (verif_hooks feature only).
+#[cfg(all(feature = "allow_filesystem", feature = "verif_hooks"))]
+pub mod verif_hooks_names {
+    pub use crate::simplify_joint_name::preprocess_joint_name;
+}
+
 /// Verification hooks: re-export of the private RRT core (verif_hooks feature only).
 #[cfg(all(feature = "stroke_planning", feature = "verif_hooks"))]
 pub mod verif_hooks_rrt {
